@@ -221,6 +221,9 @@ type wcfg struct {
 	// Settings (acceptor): the settings object handed to the constructor, when several sessions are to be built
 	// from one object as an acceptor callback naturally does
 	Settings *session.LogonSettings
+	// PreRun runs after the session has been constructed (its own hooks are registered) and before it is started
+	// (an initiator sends its Logon when started)
+	PreRun func(w *world)
 }
 
 type world struct {
@@ -349,6 +352,9 @@ func newWorld(c wcfg) *world {
 		<-w.s.Context().Done()
 		w.ctxDone, w.ctxDoneAt = true, vsched.NowOffset()
 	}()
+	if c.PreRun != nil {
+		c.PreRun(w)
+	}
 	if err := w.s.Run(); err != nil {
 		panic(fmt.Sprintf("harness: session.Run: %v", err))
 	}
